@@ -158,7 +158,18 @@ def run_case(acc, cseed, tmpdir, state):
     images = []
     # file naming: distinct names in one directory, or the same name in a directory per
     # image (ui/app.hex, signer/app.hex ...), or names that are prefixes of each other
-    naming = rng.choice(["distinct", "distinct", "same-name-other-dir", "prefix-names"])
+    naming = rng.choice(["distinct", "distinct", "same-name-other-dir", "prefix-names",
+                         "pattern-characters"])
+    odd_names = []
+    if naming == "pattern-characters":
+        # names that mean something else to a shell, a glob, a format string or a path
+        # expander - each of which would lead to the sibling app0.hex or nowhere; to the
+        # tools they are file names
+        nimg = max(nimg, 2)
+        odd_names = rng.sample(["app[0].hex", "app?.hex", "app*.hex", "app[0-9].hex",
+                                "app[!1].hex", "$HOME.hex", "~app0.hex", "app0 .hex",
+                                "%s.hex", "{app0}.hex", "app0.hex;x", "app0.hex#", "*"],
+                               nimg - 1)
     for i in range(nimg):
         areas = ihex.gen_areas(rng)
         if i > 0 and rng.random() < 0.25:
@@ -172,6 +183,8 @@ def run_case(acc, cseed, tmpdir, state):
             p = os.path.join(d, "app.hex")
         elif naming == "prefix-names":
             p = os.path.join(tmpdir, "app" + ".hex" * (i + 1))
+        elif naming == "pattern-characters" and i > 0:
+            p = os.path.join(tmpdir, odd_names[i - 1])
         else:
             p = os.path.join(tmpdir, "app%d.hex" % i)
         acc.count("naming_" + naming)
